@@ -46,6 +46,7 @@ static LargeInt Relocate;
 static Boolean  StartAuto, StopAuto, AutoErase, EntryAdrPresent;
 static Word     Seg, Ofs;
 static LongWord Dummy;
+static LongWord MOSRecCnt;
 static Byte     IntelMode;
 static Byte     MultiMode; /* 0=8M, 1=16, 2=8L, 3=8H */
 static Byte     MinMoto;
@@ -618,6 +619,7 @@ static void ProcessFile(char const* FileName, LongWord Offset) {
                     case eHexFormatMOS:
                         errno = 0;
                         fprintf(TargFile, "%04X\n", LoWord(ChkSum));
+                        MOSRecCnt++;
                         break;
                     case eHexFormatIntel:
                     case eHexFormatIntel16:
@@ -1353,7 +1355,8 @@ int main(int argc, char** argv) {
 
     if (FormatOccured & eMOSOccured) {
         errno = 0;
-        fprintf(TargFile, ";0000040004\n");
+        fprintf(TargFile, ";00%04X%04X\n", (unsigned)LoWord(MOSRecCnt),
+                (unsigned)(Lo(MOSRecCnt) + Hi(MOSRecCnt)));
         ChkIO(TargName);
     }
 
